@@ -396,7 +396,7 @@ func (s *Script) evalWithRoot(stack, data, root any) (any, Expr) {
 				}
 				stack = tstack
 			case []gen.Node:
-				if n, ok := v.(gen.Node); ok {
+				if n, ok := v.(gen.Node); ok || v == nil { // a null element is a nil gen.Node
 					tstack = append(tstack, n)
 					if 0 < len(locKeys) {
 						locs = append(locs, locKeys[vi])
